@@ -121,6 +121,13 @@ def gen_cases(ctx):
                "seed": rng.randrange(2**31), "instance": gen.long_instance(rng), "episodes": 1,
                "abandon": False, "sibling": False,
                "observers": [{"type": t, "feature_types": None, "form": "class"} for t in TYPES]}
+    if ctx.shard == 0:
+        # a job of more than a thousand operations: propagating along a job is iteration, whatever
+        # its length
+        yield {"kind": "history", "mode": "single", "policy": "random_ready", "filter": None,
+               "seed": rng.randrange(2**31), "instance": gen.long_instance(rng, n=1100), "episodes": 1,
+               "abandon": False, "sibling": False,
+               "observers": [{"type": "earliest_start_time", "feature_types": None, "form": "class"}]}
     for i in range(ctx.scale(600, 72000)):
         inst = gen.gen_instance(rng, None, max_jobs=rng.choice([1, 2, 3, 4, 5]), max_machines=rng.choice([1, 2, 3, 4]))
         yield {"kind": "construct", "instance": inst, "seed": rng.randrange(2**31)}
